@@ -62,7 +62,8 @@ def asU8 : Prim → R Nat
 
 inductive Lookup where
   | bytes (bs : List UInt8)
-  /-- a stream with filters: `Stream::<()>::from_stream(..)` and `data()` recorded, not run -/
+  /-- a stream with filters (or file entries, an indirect `/Length`): `Stream::<()>::from_stream(..)` and `data()`
+      recorded, not run -/
   | deferred (info : Dict) (data : List UInt8)
 
 /-- `match arr[3] { &Reference(r) => resolve.resolve(r)?, p => p.clone() }` -/
@@ -70,16 +71,24 @@ def lookupObj (se : SEnv) : Prim → R Obj
   | .ref id g => resolveO se (.ref id g)
   | q => .ok (.prim q)
 
+/-- the entries `StreamInfo::from_primitive` reads besides `/Length` and `/Filter`; `Derive.unitStreamData` (C15) is the
+    model of a stream dictionary without them -/
+def hasFileKeys (info : Dict) : Bool :=
+  (dget "DecodeParms" info).isSome || (dget "F" info).isSome || (dget "FFilter" info).isSome ||
+    (dget "FDecodeParms" info).isSome
+
 /-- the fourth element of `/Indexed`: a string or a stream -/
 def readLookup (se : SEnv) (p : Prim) : R Lookup :=
   match lookupObj se p with
   | .error e => .error e
   | .ok (.prim (.str bs)) => .ok (.bytes bs)
   | .ok (.stream info data) =>
-    match unitStreamData info data with
-    | .ok d => .ok (.bytes d)
-    | .error .oof => .ok (.deferred info data)
-    | .error e => .error e
+    if hasFileKeys info then .ok (.deferred info data)
+    else
+      match unitStreamData info data with
+      | .ok d => .ok (.bytes d)
+      | .error .oof => .ok (.deferred info data)
+      | .error e => .error e
   | .ok (.prim _) => .error .other
 
 inductive CS where
